@@ -129,6 +129,28 @@ def main():
                 _ = traverse_graph_with_sampled_series(ts.root_node, s, ts.relation_graph, 10)
             elif k == "list":
                 _ = get_ts(op["ts"]).infer_type(["POINT (1 2)", "x"])
+            elif k == "edit":
+                # the caller edits a container in place between two calls on the same typeset
+                kind = op["kind"]
+                ts = get_ts("standard" if kind == "numpy" else op["ts"])     # the numpy back end implements StandardSet only
+                x = {"list": ["1.5", "2.5", "4.0"], "numpy": np.array(["1.5", "2.5", "4.0"], dtype=object),
+                     "series": pd.Series(["1.5", "2.5", "4.0"], dtype=object),
+                     "frame": pd.DataFrame({"a": pd.Series(["1.5", "2.5", "4.0"], dtype=object)})}[kind]
+                _ = ts.infer_type(x)
+                _ = ts.cast_to_inferred(x)
+                if kind == "list":
+                    x[:] = ["north", "south", "east"]
+                elif kind == "numpy":
+                    x[:] = ["north", "south", "east"]
+                elif kind == "series":
+                    x.iloc[:] = ["north", "south", "east"]
+                else:
+                    x.loc[:, "a"] = ["north", "south", "east"]
+                back = ts.cast_to_inferred(x)
+                typ = ts.infer_type(x)
+                typ = str(typ["a"]) if kind == "frame" else str(typ)
+                if typ != "String" or (back is not x and kind != "frame"):
+                    err = "stale-after-edit:%s:%s:%s" % (kind, typ, back is x)
             elif k == "long":
                 vals = [None] * 1500
                 for i in op["pos"]:
@@ -138,7 +160,7 @@ def main():
                 _ = ts.infer_type(s)
                 _ = ts.detect_type(pd.DataFrame({"a": s, "b": range(1500)}))
         except Exception as e:  # noqa
-            err = type(e).__name__
+            err = type(e).__name__ + ":" + str(e)[:80] if op.get("op") == "edit" else type(e).__name__
         after = snapshot()
         d = diff(before, after)
         log.append({"op": op["op"], "err": err, "changed": d})
@@ -154,6 +176,16 @@ def main():
                            "dtype": str(getattr(data, "dtype", None))}
         except Exception as e:  # noqa
             probe[name] = {"raises": type(e).__name__}
+    # the same probes through the typesets the history has used: a typeset carries no memory of earlier calls
+    probe_used = {}
+    for tsname, uts in typesets.items():
+        for name, rec in spec["probes"].items():
+            s = series(rec)
+            try:
+                data, path, state = uts.infer(s)
+                probe_used[tsname + ":" + name] = {"detect": str(uts.detect_type(s)), "path": [str(t) for t in path]}
+            except Exception as e:  # noqa
+                probe_used[tsname + ":" + name] = {"raises": type(e).__name__}
     # long, mostly-missing columns: any sampling shortcut makes these answers vary between calls and processes
     for name, npos in (("long_sparse_1", 1), ("long_sparse_40", 40), ("long_float_one_complex", 0)):
         if npos:
@@ -177,7 +209,7 @@ def main():
     probe["typeset_types"] = sorted(str(t) for t in ts.types)
     probe["graph_edges"] = sorted((str(a), str(b), d["style"]) for a, b, d in ts.relation_graph.edges(data=True))
     sys.stdout = real_out
-    print(json.dumps({"log": log, "probe": probe, "stderr_written": len(my_err.getvalue())}))
+    print(json.dumps({"log": log, "probe": probe, "probe_used": probe_used, "stderr_written": len(my_err.getvalue())}))
 
 
 if __name__ == "__main__":
